@@ -547,6 +547,36 @@ func genRepeatSource(r *rand.Rand) (Script, RunEnv) {
 		bal = "-" + fmt.Sprint(1+r.Intn(150))
 	}
 	env.Balances[acc] = map[string]string{asset: bal}
+	if r.Intn(2) == 0 {
+		// `save [A n] from acc` / `save [A *] from acc` between the sends: n below, equal to,
+		// above the balance (also when the balance is negative: the tracked balance then goes
+		// further down and a later bounded overdraft must not draw its allowance again)
+		var bi int
+		fmt.Sscan(bal, &bi)
+		abs := bi
+		if abs < 0 {
+			abs = -abs
+		}
+		ns := 1 + r.Intn(2)
+		for k := 0; k < ns; k++ {
+			var st Stmt
+			if r.Intn(5) == 0 {
+				st = Stmt{K: "saveall", E: &Expr{K: "asset", S: asset}, Acc: accE()}
+			} else {
+				n := gen.Pick(r, []int{0, 1, 1, 2, abs, abs + 1, abs / 2, r.Intn(30), 100 + r.Intn(200)})
+				if n < 0 {
+					n = 0
+				}
+				st = Stmt{K: "save", E: &Expr{K: "mon", A: &Expr{K: "asset", S: asset}, N: fmt.Sprint(n)}, Acc: accE()}
+			}
+			// mostly before the last send, so that a bounded-overdraft send follows
+			pos := r.Intn(len(sc.Stmts))
+			if r.Intn(6) == 0 {
+				pos = len(sc.Stmts)
+			}
+			sc.Stmts = append(sc.Stmts[:pos], append([]Stmt{st}, sc.Stmts[pos:]...)...)
+		}
+	}
 	for _, o := range []string{"c", "d", "x", "y"} {
 		if r.Intn(2) == 0 {
 			env.Balances[o] = map[string]string{asset: fmt.Sprint(r.Intn(100) - 20)}
